@@ -1,5 +1,5 @@
 (* Parsers/printers for the abstract value notation shared with the Go harness (internal/absval). *)
-open Conv
+open Cnv
 module L = Stdlib.List
 module S = Stdlib.String
 
